@@ -18,6 +18,7 @@ import (
 	"sort"
 	"strconv"
 	"strings"
+	"sync"
 	"sync/atomic"
 	"testing"
 	"testing/synctest"
@@ -325,6 +326,9 @@ type ReplayFile struct {
 	Tier      string                 `json:"tier"`
 	Config    map[string]interface{} `json:"config"`
 	Tape      []uint32               `json:"tape"`
+	// Search: the run is reproduced from (seed, run) with the generating tape
+	// (used for hangs, where no consumed tape could be recorded).
+	Search    bool                   `json:"search,omitempty"`
 	OrigLen   int                    `json:"original_tape_len"`
 	Shrinks   int                    `json:"shrink_replays"`
 	Violation sim.Violation          `json:"violation"`
@@ -451,11 +455,35 @@ func Main(t *testing.T, env *Env, props map[string]*Prop) {
 	rep := &Report{Property: id, Worker: int(from), Seed: seed, Counters: map[string]int64{}, Features: map[string]int64{}, Strategies: map[string]int64{}}
 	hashes := map[string]bool{}
 	nth := map[string]bool{}
+	wdMu.Lock()
+	wdReport, wdProp, wdSeed, wdTier, wdOut, wdDir = rep, p, seed, tier, outPath, replayDir
+	wdMu.Unlock()
 	knownSeen := map[string]bool{}
 	start := time.Now()
 	var n uint64
+	wdMu.Lock()
+	wdFinalize = func() {
+		// (called by the watchdog with wdMu held, while the main loop is stuck)
+		rep.WallS = time.Since(start).Seconds()
+		for h := range hashes {
+			rep.Hashes = append(rep.Hashes, h)
+		}
+		for h := range nth {
+			rep.NTHashes = append(rep.NTHashes, h)
+		}
+		b, _ := json.Marshal(rep)
+		if outPath != "" {
+			os.WriteFile(outPath, b, 0o644)
+		} else {
+			os.Stdout.Write(b)
+		}
+	}
+	wdMu.Unlock()
 	for run := from; n < maxRuns && time.Since(start) < budget; run += stride {
 		n++
+		wdMu.Lock()
+		wdRun = run
+		wdMu.Unlock()
 		wantTrace := len(rep.Samples) < 3
 		r := RunOnce(t, env, p, seed, run, nil, false, wantTrace, tier)
 		rep.Runs++
@@ -535,25 +563,32 @@ func Main(t *testing.T, env *Env, props map[string]*Prop) {
 			}
 		}
 	}
-	rep.WallS = time.Since(start).Seconds()
-	for h := range hashes {
-		rep.Hashes = append(rep.Hashes, h)
-	}
-	for h := range nth {
-		rep.NTHashes = append(rep.NTHashes, h)
-	}
-	sort.Strings(rep.Hashes)
-	sort.Strings(rep.NTHashes)
-	b, _ := json.Marshal(rep)
-	if outPath != "" {
-		if err := os.WriteFile(outPath, b, 0o644); err != nil {
-			fmt.Printf("HARNESS-ERROR cannot write %s: %v\n", outPath, err)
-			os.Exit(2)
+	finalize := func() {
+		rep.WallS = time.Since(start).Seconds()
+		rep.Hashes, rep.NTHashes = nil, nil
+		for h := range hashes {
+			rep.Hashes = append(rep.Hashes, h)
 		}
-	} else {
-		os.Stdout.Write(b)
-		fmt.Println()
+		for h := range nth {
+			rep.NTHashes = append(rep.NTHashes, h)
+		}
+		sort.Strings(rep.Hashes)
+		sort.Strings(rep.NTHashes)
+		b, _ := json.Marshal(rep)
+		if outPath != "" {
+			if err := os.WriteFile(outPath, b, 0o644); err != nil {
+				fmt.Printf("HARNESS-ERROR cannot write %s: %v\n", outPath, err)
+				os.Exit(2)
+			}
+		} else {
+			os.Stdout.Write(b)
+			fmt.Println()
+		}
 	}
+	wdMu.Lock()
+	wdFinalize = nil
+	wdMu.Unlock()
+	finalize()
 }
 
 func verdict(r *Result) string {
@@ -618,7 +653,18 @@ func replayMain(t *testing.T, env *Env, p *Prop, path, tier string) {
 	if rf.Tier != "" {
 		tier = rf.Tier
 	}
-	r := RunOnce(t, env, p, rf.Seed, rf.Run, rf.Tape, true, true, tier)
+	wdMu.Lock()
+	wdOut = os.Getenv("VERIF_OUT")
+	if rf.Search {
+		wdReplay = &rf
+	}
+	wdMu.Unlock()
+	var r *Result
+	if rf.Search {
+		r = RunOnce(t, env, p, rf.Seed, rf.Run, nil, false, true, tier)
+	} else {
+		r = RunOnce(t, env, p, rf.Seed, rf.Run, rf.Tape, true, true, tier)
+	}
 	out := map[string]interface{}{
 		"property":       p.ID,
 		"expected_class": rf.Violation.Class,
@@ -647,25 +693,101 @@ func replayMain(t *testing.T, env *Env, p *Prop, path, tier string) {
 // startWatchdog aborts the process when one run makes no progress for a long
 // wall-clock time (a task that never yields: spin candidate, or a harness
 // fault).  It lives outside every bubble.
+// state the watchdog needs to turn a hang into a report
+var (
+	wdMu       sync.Mutex
+	wdReport   *Report
+	wdProp     *Prop
+	wdSeed     uint64
+	wdRun      uint64
+	wdTier     string
+	wdOut      string
+	wdDir      string
+	wdReplay   *ReplayFile // set in replay mode
+	wdFinalize func()
+)
+
+var reGoroutine = regexp.MustCompile(`(?m)^goroutine \d+ \[([^\]]*)\]:$`)
+
+// classifyHang looks for a goroutine that is running or runnable inside the
+// code under test: a task that was released and never yielded or blocked.
+func classifyHang(stack string) (class, excerpt string) {
+	blocks := strings.Split(stack, "\n\n")
+	for _, b := range blocks {
+		m := reGoroutine.FindStringSubmatch(b)
+		if m == nil {
+			continue
+		}
+		state := m[1]
+		if !(strings.HasPrefix(state, "running") || strings.HasPrefix(state, "runnable")) || !strings.Contains(state, "synctest bubble") {
+			continue
+		}
+		fr := sim.TopRepoFrame([]byte(b))
+		if fr == "?" {
+			continue
+		}
+		return "spin/task-never-yields@" + fr, sim.TrimStack([]byte(b))
+	}
+	return "", ""
+}
+
+// startWatchdog aborts the process when no scheduler decision has been made
+// for a long wall-clock time: a released task never yields or blocks (a busy
+// loop in the code under test, reported as a violation with a search-mode
+// replay file), or a harness fault (exit 3).  It lives outside every bubble.
 func startWatchdog() {
-	limit := time.Duration(envU("VERIF_WATCHDOG_S", 60)) * time.Second
+	limit := time.Duration(envU("VERIF_WATCHDOG_S", 30)) * time.Second
 	go func() {
 		last := ""
+		var lastProg uint64
 		since := time.Now()
 		for {
 			time.Sleep(time.Second)
 			cur, _ := curRun.Load().(string)
-			if cur != last {
-				last = cur
+			prog := sim.Progress.Load()
+			if cur != last || prog != lastProg {
+				last, lastProg = cur, prog
 				since = time.Now()
 				continue
 			}
-			if cur != "" && time.Since(since) > limit {
-				buf := make([]byte, 1<<20)
-				n := runtime.Stack(buf, true)
-				fmt.Printf("WATCHDOG %s stuck for %v\n%s\n", cur, limit, buf[:n])
+			if cur == "" || time.Since(since) <= limit {
+				continue
+			}
+			buf := make([]byte, 4<<20)
+			n := runtime.Stack(buf, true)
+			class, excerpt := classifyHang(string(buf[:n]))
+			wdMu.Lock()
+			if wdReplay != nil {
+				out := map[string]interface{}{"property": wdReplay.Property, "expected_class": wdReplay.Violation.Class, "class": class,
+					"reproduced": class != "" && class == wdReplay.Violation.Class, "identical_log": false, "detail": excerpt, "harness_error": ""}
+				jb, _ := json.Marshal(out)
+				if wdOut != "" {
+					os.WriteFile(wdOut, jb, 0o644)
+				} else {
+					fmt.Println(string(jb))
+				}
+				os.Exit(0)
+			}
+			if class == "" || wdReport == nil {
+				fmt.Printf("WATCHDOG %s: no scheduler decision for %v\n%s\n", cur, limit, buf[:n])
 				os.Exit(3)
 			}
+			detail := fmt.Sprintf("no scheduler decision for %v of wall-clock time: a task was released and has neither yielded, blocked nor returned since (busy loop).\n%s", limit, excerpt)
+			rf := &ReplayFile{Property: wdProp.ID, Variant: wdProp.Variant, Engine: os.Getenv("VERIF_ENGINE"), Seed: wdSeed, Run: wdRun, Tier: wdTier, Search: true,
+				Violation: sim.Violation{Class: class, Detail: detail}, GoVersion: runtime.Version()}
+			dir := wdDir
+			if dir == "" {
+				dir = "."
+			}
+			os.MkdirAll(dir, 0o755)
+			path := filepath.Join(dir, fmt.Sprintf("%s-%d-%d.json", wdProp.ID, wdSeed, wdRun))
+			jb, _ := json.MarshalIndent(rf, "", " ")
+			os.WriteFile(path, jb, 0o644)
+			wdReport.Violations = append(wdReport.Violations, map[string]interface{}{"class": class, "detail": detail, "replay": path, "seed": wdSeed, "run": wdRun})
+			if wdFinalize != nil {
+				wdFinalize()
+			}
+			os.Exit(0)
 		}
 	}()
 }
